@@ -138,9 +138,11 @@ def _caller_outcome(exc: BaseException) -> str:
     cur: BaseException | None = exc
     while cur is not None and cur not in chain:
         chain.append(cur)
-        cur = cur.__cause__
+        cur = cur.__cause__ or cur.__context__  # `raise ... from None` hides the reason from the traceback, not from here
     if any(isinstance(e, ssl.SSLError) for e in chain):
         return "caller_error"
+    if len(chain) == 1 and isinstance(exc, ConnectionAbortedError):
+        return "caller_unknown"  # a client that says ECONNABORTED and nothing else: either reason is possible, the specification takes both
     if isinstance(chain[-1], ConnectionAbortedError):
         return "caller_eof"
     return "caller_error"
